@@ -69,6 +69,10 @@ CHECKS = {
          "Every generated message of the six types is encoded and decoded by the real codec and compared field by field; every mutated or random byte string up to the 2 MiB receive limit is decoded in a child process, where a panic, process death, over 10 s or allocation above 256 x len + 64 MiB for one input, or an accepted message that is malformed or does not re-encode to itself is a violation. Held = on the inputs of this run.",
          "the prebuilt BLS archives are not instrumented (asan sees only intercepted libc calls); allocation bound is a proxy for 'exhausts memory'",
          "DESIGN.md §3 C16"),
+ "C17": ("exploration", "in-process cluster topologies (superior, pools, relays, collectors over loopback TCP with scripted keepers) under -race with a fault-injecting TCP proxy and schedule hooks (H6); client-boundary event log judged by an offline oracle, watchdog plus goroutine-dump attribution for non-returning calls",
+         "On the seeded scenarios - removals, stops, drops, stalls and late subscriptions at seeded moments, including inside the hook-widened AddTask/Subscribe window - every recorded event log must satisfy: broadcast tasks exactly once to fully covered collectors (at least once to late subscribers), targeted tasks only inside the target's subtree, every received report equal to a sent one with a stable connection tag and in per-connection order, nothing delivered after RemoveTask returned, every call returned within the 30 s watchdog (deadlock only with repository frames in the dump), and fresh probe tasks still answered after every injected event. Held = on the scenarios of this run; nothing about topologies beyond 16 collectors / 2 relays or faults not produced.",
+         "unique ids make the history unambiguous; quality tasks use parent target 0 so every scripted quality passes (the chain library's filtering is not re-derived); race reports are observations",
+         "DESIGN.md §3 C17"),
  "C18": ("exploration", "independent BIP32/BIP39 reference oracle over seeded and searched (leading-zero) seeds/paths/entropies",
          "Every derivation step the run produces (private, public, hardened, normal, after string round trip) is compared with an independent reference validated against the published vectors; seeds and child indices are searched so that short private scalars occur in every run. Held = on all derivations of this run.",
          "trusts internal/ref (self-checked against BIP32 vectors 1-4 and BIP39 English vectors at start-up), Go's crypto/hmac, sha512, math/big",
